@@ -8,7 +8,7 @@ from . import common
 
 JOBS = {"quick": 4, "thorough": 16}
 CONTROL = ("op", "strategy", "handler", "sleep", "dsleep", "poll", "budget", "br.allow", "br.success", "br.failure", "br.cancel")
-EXCS = ["RuntimeError", "HookBoom", "StopIteration", "KeyError", "AbortRetryError", "RetryExhaustedError", "CircuitOpenError", "TimeoutError", "OSError", "ValueError"]
+EXCS = ["RuntimeError", "HookBoom", "StopIteration", "KeyError", "AbortRetryError", "RetryExhaustedError", "CircuitOpenError", "TimeoutError", "OSError", "ValueError", "BadStrError", "NonStrError"]
 HOOKS = ["metric", "log", "before_sleep"]
 
 
@@ -145,8 +145,8 @@ def conclude(ctx):
     return dict(
         rule=(
             "hook-fault enumeration: per scenario x entry, a silent-hook baseline run counts the invocations of on_metric / on_log / before_sleep (sync and awaitable); one faulted run per "
-            "(hook x invocation index) and per (hook x 'always' x exception type) with types drawn from 10 Exception subclasses (incl. StopIteration, AbortRetryError, RetryExhaustedError, "
-            "CircuitOpenError, asyncio.TimeoutError); the control projection {operations, strategy calls, handler, sleeps, polls, budget, breaker records, final} must equal the baseline's and the other "
+            "(hook x invocation index) and per (hook x 'always' x exception type) with types drawn from 12 Exception subclasses (incl. StopIteration, AbortRetryError, RetryExhaustedError, "
+            "CircuitOpenError, asyncio.TimeoutError, and exceptions whose __str__ raises or returns a non-str); the control projection {operations, strategy calls, handler, sleeps, polls, budget, breaker records, final} must equal the baseline's and the other "
             "sinks (metric/log/before_sleep/timeline) must receive the same events; distinct_nontrivial = distinct (entry, hook, single/always) cells in which the fault fired"
         ),
         evaluations=ctx.cnt["faulted_runs"] + ctx.cnt["baseline_runs"],
